@@ -11,7 +11,7 @@ import (
 // adoptEffects copies heap/object/ghost changes made in a guarded sub-state back into st
 // (merged under the sub-state's guard).
 func (fc *FnCtx) adoptEffects(st, sub *State) {
-	if sub.heap.S == st.heap.S && sub.nextR.S == st.nextR.S && len(sub.objs) == len(st.objs) && len(sub.ghost) == len(st.ghost) {
+	if sub.heap.S == st.heap.S && sub.cheap.S == st.cheap.S && sub.nextR.S == st.nextR.S && len(sub.objs) == len(st.objs) && len(sub.ghost) == len(st.ghost) {
 		same := true
 		for k, v := range sub.objs {
 			if ov, ok := st.objs[k]; !ok || !sameVal(v, ov) {
@@ -60,6 +60,9 @@ func (fc *FnCtx) adoptEffects(st, sub *State) {
 	}
 	if sub.heap.S != st.heap.S {
 		st.heap = fc.define(ite(g, sub.heap, st.heap), "H")
+	}
+	if sub.cheap.S != st.cheap.S {
+		st.cheap = fc.define(ite(g, sub.cheap, st.cheap), "C")
 	}
 	if sub.nextR.S != st.nextR.S {
 		st.nextR = fc.define(ite(g, sub.nextR, st.nextR), "nextR")
@@ -623,6 +626,7 @@ type modSet struct {
 	foreign map[types.Object]bool // slice variables assigned from something other than themselves
 	paths   []string // selector paths assigned in the loop (or listed under on-call modifies)
 	ghostsAll bool
+	cells   bool // cells of a cell-encoded struct slice may be written
 	objsUnknown bool // an object is written through something other than a plain field path
 	ghosts  map[string]bool // ghost variables assigned by on-call effects / nested iter resets inside the nodes
 	node    ast.Node
@@ -677,6 +681,10 @@ func (fc *FnCtx) modified(nodes ...ast.Node) *modSet {
 					continue
 				}
 				if ix, ok := root.(*ast.IndexExpr); ok {
+					if sl, ok := fc.typeOf(ix.X).Underlying().(*types.Slice); ok && isCellType(sl.Elem()) {
+						ms.cells = true
+						return
+					}
 					root = ix.X
 					ms.heap = true
 					ms.objsUnknown = true
@@ -688,6 +696,12 @@ func (fc *FnCtx) modified(nodes ...ast.Node) *modSet {
 				ms.objsUnknown = true // written through something that is not a plain field path
 			}
 			if id, ok := root.(*ast.Ident); ok {
+				// kv := &s[i]; kv.f = v  with s a slice of cell-encoded structs
+				if pt, ok := fc.typeOf(id).Underlying().(*types.Pointer); ok && isCellType(pt.Elem()) {
+					ms.cells = true
+				}
+			}
+			if id, ok := root.(*ast.Ident); ok {
 				if o := fc.pkg.TypesInfo.ObjectOf(id); o != nil {
 					// p.f = v through a pointer variable changes the object, not the variable
 					if _, isPtr := o.Type().Underlying().(*types.Pointer); !isPtr {
@@ -696,7 +710,11 @@ func (fc *FnCtx) modified(nodes ...ast.Node) *modSet {
 				}
 			}
 		case *ast.IndexExpr:
-			if _, ok := fc.typeOf(x.X).Underlying().(*types.Slice); ok {
+			if sl, ok := fc.typeOf(x.X).Underlying().(*types.Slice); ok {
+				if isCellType(sl.Elem()) {
+					ms.cells = true
+					return
+				}
 				ms.heap = true
 				if o := rootVar(x.X); o != nil {
 					ms.wslices[o] = true
@@ -707,6 +725,10 @@ func (fc *FnCtx) modified(nodes ...ast.Node) *modSet {
 				markLhs(x.X)
 			}
 		case *ast.StarExpr:
+			if pt, ok := fc.typeOf(x.X).Underlying().(*types.Pointer); ok && isCellType(pt.Elem()) {
+				ms.cells = true
+				return
+			}
 			ms.objs = true
 			ms.objsUnknown = true
 			// *p = v writes byte cells only when p points at a byte; a slice header or a struct lives in an object
@@ -781,6 +803,10 @@ func (fc *FnCtx) modified(nodes ...ast.Node) *modSet {
 					if _, isB := fc.pkg.TypesInfo.ObjectOf(id).(*types.Builtin); isB {
 						switch id.Name {
 						case "append":
+							if sl, ok := fc.typeOf(x.Args[0]).Underlying().(*types.Slice); ok && isCellType(sl.Elem()) {
+								ms.cells = true
+								return true
+							}
 							ms.heap = true
 							if o := rootVar(x.Args[0]); o != nil {
 								ms.wslices[o] = true
@@ -789,6 +815,10 @@ func (fc *FnCtx) modified(nodes ...ast.Node) *modSet {
 								ms.unknownWrite = true
 							}
 						case "copy":
+							if sl, ok := fc.typeOf(x.Args[0]).Underlying().(*types.Slice); ok && isCellType(sl.Elem()) {
+								ms.cells = true
+								return true
+							}
 							ms.heap = true
 							if o := rootVar(x.Args[0]); o != nil {
 								ms.wslices[o] = true
@@ -812,6 +842,7 @@ func (fc *FnCtx) modified(nodes ...ast.Node) *modSet {
 				if eff.heap {
 					ms.heap = true
 					ms.unknownWrite = true
+					ms.cells = true
 				}
 				if eff.objs {
 					ms.objs = true
@@ -913,6 +944,10 @@ func (fc *FnCtx) havocForLoop(st *State, ms *modSet, entry *State) {
 		for _, p := range ms.paths {
 			fc.havocPath(st, p, ms.node)
 		}
+	}
+	if ms.cells {
+		// cells written in the loop: the loop invariants have to say what is kept
+		st.cheap = fc.fresh("C", SHeap)
 	}
 	if ms.heap {
 		old := st.heap
